@@ -381,7 +381,9 @@ where
                     for i in start..(start + chunk).min(n) {
                         if let Some(p) = &poison {
                             if i % poison_every == 0 {
-                                let r = catch_unwind(AssertUnwindSafe(|| p(i as u64)));
+                                let guard = in_flight_("poison call", 60, || String::from("\"poison\""), false);
+                                let r = catch_unwind(AssertUnwindSafe(|| p((i / poison_every) as u64)));
+                                drop(guard);
                                 ctx.count("poison.calls_between_judged_cases");
                                 if r.is_err() {
                                     LAST_PANIC.with(|p| p.borrow_mut().take());
@@ -588,6 +590,137 @@ fn close_journal() {
     if let Some(j) = JOURNAL.get() {
         let _ = std::fs::remove_file(&j.path);
     }
+}
+
+// ---------------------------------------------------------------------------------------------------
+// Bounded progress of a single call.
+//
+// "Terminates" cannot be refuted by a finite run, but "returns within 10^5 times what the unchanged library
+// needs on an input of this size" can. A monitor brackets a library call with `in_flight(api, budget, input)`;
+// a supervisor thread compares the *CPU time of the calling thread* (not wall-clock time: a loaded machine does
+// not count against the call) with the budget once a second. A call over budget is journalled as a violation
+// with its input, the journal is printed and the process exits with status 1 - the thread cannot be stopped,
+// so the run cannot be finished. Budgets are seconds of CPU time for calls that take microseconds.
+struct Slot {
+    clock: libc::clockid_t,
+    start_ns: u64,
+    budget_ns: u64,
+    api: String,
+    input: String,
+    /// false for poison calls: their not returning is not a verdict
+    judged: bool,
+}
+
+const MAX_SLOTS: usize = 64;
+static SLOTS: OnceLock<Vec<Mutex<Option<Slot>>>> = OnceLock::new();
+static NEXT_SLOT: AtomicUsize = AtomicUsize::new(0);
+thread_local! {
+    static MY_SLOT: usize = NEXT_SLOT.fetch_add(1, Ordering::Relaxed);
+    static MY_CLOCK: libc::clockid_t = {
+        let mut cid: libc::clockid_t = 0;
+        unsafe { libc::pthread_getcpuclockid(libc::pthread_self(), &mut cid) };
+        cid
+    };
+}
+
+fn slots() -> &'static Vec<Mutex<Option<Slot>>> {
+    SLOTS.get_or_init(|| (0..MAX_SLOTS).map(|_| Mutex::new(None)).collect())
+}
+
+fn cpu_ns(clock: libc::clockid_t) -> Option<u64> {
+    let mut ts = libc::timespec { tv_sec: 0, tv_nsec: 0 };
+    if unsafe { libc::clock_gettime(clock, &mut ts) } == 0 {
+        Some(ts.tv_sec as u64 * 1_000_000_000 + ts.tv_nsec as u64)
+    } else {
+        None
+    }
+}
+
+pub struct InFlight {
+    slot: Option<usize>,
+}
+
+impl Drop for InFlight {
+    fn drop(&mut self) {
+        if let Some(k) = self.slot {
+            if let Ok(mut s) = slots()[k].lock() {
+                *s = None;
+            }
+        }
+    }
+}
+
+/// Declares that the calling thread is about to make the library call `api` on `input` and that the call is
+/// expected to return within `budget_secs` seconds of this thread's CPU time. Drop the guard after the call.
+pub fn in_flight(api: &str, budget_secs: u64, input: impl FnOnce() -> String) -> InFlight {
+    in_flight_(api, budget_secs, input, true)
+}
+
+fn in_flight_(api: &str, budget_secs: u64, input: impl FnOnce() -> String, judged: bool) -> InFlight {
+    let k = MY_SLOT.with(|k| *k);
+    if k >= MAX_SLOTS || JOURNAL.get().is_none() {
+        return InFlight { slot: None };
+    }
+    let clock = MY_CLOCK.with(|c| *c);
+    let start = match cpu_ns(clock) {
+        Some(t) => t,
+        None => return InFlight { slot: None },
+    };
+    if let Ok(mut s) = slots()[k].lock() {
+        *s = Some(Slot { clock, start_ns: start, budget_ns: budget_secs * 1_000_000_000, api: api.to_string(), input: input(), judged });
+    }
+    InFlight { slot: Some(k) }
+}
+
+/// Starts the supervisor of `in_flight` calls (once per monitor process, after `open_journal`).
+pub fn start_call_supervisor() {
+    let prop = match JOURNAL.get() {
+        Some(j) => j.prop.clone(),
+        None => return,
+    };
+    std::thread::spawn(move || loop {
+        std::thread::sleep(std::time::Duration::from_millis(1000));
+        for m in slots().iter() {
+            let over = match m.lock() {
+                Ok(g) => match g.as_ref() {
+                    Some(s) => match cpu_ns(s.clock) {
+                        Some(now) if now.saturating_sub(s.start_ns) > s.budget_ns => Some((s.api.clone(), s.input.clone(), (now - s.start_ns) / 1_000_000_000, s.budget_ns / 1_000_000_000, s.judged)),
+                        _ => None,
+                    },
+                    None => None,
+                },
+                Err(_) => None,
+            };
+            if let Some((api, input, used, budget, judged)) = over {
+                if !judged {
+                    // an out-of-domain call that does not return decides nothing about the property
+                    let seen = journal_lines();
+                    if seen.is_empty() {
+                        println!("INCONCLUSIVE property={} reason=a deliberately out-of-domain call between judged cases did not return within {} s of CPU time (not a verdict)", prop, budget);
+                        std::process::exit(2);
+                    }
+                    println!("{} VIOLATED (run cut short: an out-of-domain call did not return; violations observed before that)", prop);
+                    for l in seen {
+                        println!("{}", l);
+                    }
+                    std::process::exit(1);
+                }
+                let v = Violation {
+                    clause: "call-did-not-return-within-its-cpu-time-budget".to_string(),
+                    api,
+                    input: serde_json::from_str(&input).unwrap_or(Value::String(input)),
+                    observed: json!({"cpu_seconds_used_by_the_call_so_far": used, "budget_seconds": budget}),
+                    expected: "the call returns; the budget is several orders of magnitude above what the unchanged library needs on inputs of this size".to_string(),
+                };
+                journal(&v);
+                println!("{} VIOLATED (a call did not return within its CPU-time budget; the run cannot be finished)", prop);
+                for l in journal_lines() {
+                    println!("{}", l);
+                }
+                std::process::exit(1);
+            }
+        }
+    });
 }
 
 pub struct KnownFindings {
